@@ -63,6 +63,13 @@ def generate(prop, rng, index, tier):
     for p in producers:
         env[p["name"]] = eems.Res([None if m else Fraction(v) for v, m in zip(p["values"], p["mask"])], p["fuzzy"], True)
         (fz if p["fuzzy"] else nf).append(p["name"])
+    config = "netcdf" if index % 6 == 5 else "csv"
+    if config == "netcdf":
+        for p in producers:                     # one grid shape for the template
+            if p["shape"] != list(shape):
+                p["shape"] = list(shape)
+                p["values"] = p["values"][:ncell]
+                p["mask"] = p["mask"][:ncell]
     consumers = []
     n = rng.randint(5, 14 if tier == "quick" else 40)
     attempts = 0
@@ -77,11 +84,16 @@ def generate(prop, rng, index, tier):
                 args["OutFileName"] = "print%d.txt" % len(consumers)
             consumers.append({"name": name, "cmd": cmd, "args": args})
             continue
-        if cmd == "EEMSWrite":
+        if cmd == "EEMSWrite" or (config == "netcdf" and rng.random() < 0.25):
             pool = nf + fz
-            args = {"OutFileName": "out%d.csv" % len(consumers),
-                    "OutFieldNames": [rng.choice(pool) for _ in range(rng.randint(1, 3))]}
-            consumers.append({"name": name, "cmd": cmd, "args": args})
+            if config == "netcdf":
+                args = {"OutFileName": "out%d.nc" % len(consumers),
+                        "OutFieldNames": list(dict.fromkeys(rng.choice(pool) for _ in range(rng.randint(1, 4)))),
+                        "DimensionFileName": "template.nc", "DimensionFieldName": "elev"}
+            else:
+                args = {"OutFileName": "out%d.csv" % len(consumers),
+                        "OutFieldNames": [rng.choice(pool) for _ in range(rng.randint(1, 3))]}
+            consumers.append({"name": name, "cmd": "EEMSWrite", "args": args})
             continue
         args = modelgen.gen_args(rng, cmd, nf, fz, env)
         if args is None:
@@ -103,7 +115,7 @@ def generate(prop, rng, index, tier):
         env[name] = env[src[0]] if src else env[producers[0]["name"]]
         (fz if d["fuzzy"] else nf).append(name)
     order = list(range(len(consumers)))
-    return {"engine": ENGINE, "prop": "C09", "producers": producers, "consumers": consumers,
+    return {"engine": ENGINE, "prop": "C09", "config": config, "producers": producers, "consumers": consumers,
             "final_run": rng.random() < 0.3, "repeat_reads": rng.random() < 0.3}
 
 
@@ -177,8 +189,24 @@ def execute(sc):
         check_all(key, "raised %s" % type(exc).__name__)
 
     mon = ExecMonitor(log, on_exit=on_exit, on_raise=on_raise)
+    root = None
     with Hygiene(), fs, StdCapture(log):
-        program = Program(working_dir=WORK)
+        if sc.get("config") == "netcdf":
+            # the NetCDF writer needs real files: a per-run scratch directory, removed afterwards
+            import os
+            import tempfile
+            from .iosim_netcdf import _make_template, NETCDF_LIBS
+            root = tempfile.mkdtemp(prefix="imm-", dir=os.path.join(os.environ["MPSIM_SCRATCH"], "work"))
+            shape0 = sc["producers"][0]["shape"]
+            dims = [["d%d" % i, n] for i, n in enumerate(shape0)]
+            _make_template(os.path.join(root, "template.nc"), {
+                "dims": dims, "coords": {d: {"dtype": "f8", "values": [float(k) for k in range(n)], "attrs": {}}
+                                         for d, n in dims},
+                "var": {"name": "elev", "dtype": "f8", "fill": None}, "crs": False})
+            program = Program(libraries=NETCDF_LIBS, working_dir=root)
+            res.probe("NetCDF configuration (real scratch files)")
+        else:
+            program = Program(working_dir=WORK)
         mon.install(list(program.command_library.values()))
         try:
             for p in sc["producers"]:
@@ -244,6 +272,9 @@ def execute(sc):
                 res.probe("program.run() after the history")
         finally:
             mon.uninstall()
+            if root:
+                import shutil
+                shutil.rmtree(root, ignore_errors=True)
     res.case_key = h64([sc["producers"], sc["consumers"]])
     res.schedule_key = h64([[c["cmd"] for c in sc["consumers"]]])
     res.state_keys.add(h64([len(snaps), sorted({c["cmd"] for c in sc["consumers"]})[:6]]))
@@ -253,7 +284,9 @@ def execute(sc):
 
 def worker_init(scratch):
     from mpilot.program import Program
+    from .iosim_netcdf import NETCDF_LIBS
     Program()
+    Program(libraries=NETCDF_LIBS)
 
 
 def shrink_candidates(sc):
